@@ -42,7 +42,8 @@ def vdec(spec):
     if k == "I":
         return np.int64(int(x))
     if k == "f":
-        return float(x)
+        v = float(x)
+        return np.nan if math.isnan(v) else v  # the NaN a user writes is the numpy.nan OBJECT (pickle gives another one)
     if k == "F":
         return np.float64(float(x))
     if k == "s":
